@@ -1,4 +1,20 @@
 import Cav.Thm.C06
+import Cav.Thm.C06Print
 #print axioms Cav.C06.shape_ok
 #print axioms Cav.C06.context_tables_ok
 #print axioms Cav.C06.default_ctx_matches_tables
+#print axioms Cav.C06.parseExpr_fuel_mono
+#print axioms Cav.C06.loopAdd_fuel_mono
+#print axioms Cav.C06.parseMul_fuel_mono
+#print axioms Cav.C06.loopMul_fuel_mono
+#print axioms Cav.C06.parseTerm_fuel_mono
+#print axioms Cav.C06.parseParenth_fuel_mono
+#print axioms Cav.C06.parseFunc_fuel_mono
+#print axioms Cav.C06.parseExpr_consumes
+#print axioms Cav.C06.fuel_suffices
+#print axioms Cav.C06.compile_ne_outOfFuel
+#print axioms Cav.C06.parseExpr_prints
+#print axioms Cav.C06.parse_print
+#print axioms Cav.C06.prints_unique
+#print axioms Cav.C06.ctxOK_iff
+#print axioms Cav.C06.prints_example
